@@ -158,6 +158,21 @@ class Gen:
         return "".join(":" + self.edge() for _ in range(r.choice([2, 3])))
 
     # ---- groups
+    def sweep(self):
+        """EVERY (site, namespace name of any bundled site): one plainly spelled title '<name, random letter case>:x<k>'.
+        The site's answer is judged against its own siteinfo (own name -> that namespace; name of another site only ->
+        an ordinary title of the default namespace)."""
+        r = self.rng
+        out = []
+        for lang in self.langs:
+            own = {m.lower() for _i, m, _k in self.names[lang][1]}
+            for n in self.all_names:
+                sp = self.casevar(n) + ":" + r.choice(["x", "some page", "1", "é"])
+                out.append({"kind": "sweep_own" if n.lower() in own else "sweep_foreign", "lang": lang, "dns": r.choice([0, 0, 6, 10, 14]),
+                            "spellings": [sp], "expect": None})
+        r.shuffle(out)
+        return out
+
     def group(self):
         r = self.rng
         lang = r.choice(self.langs)
